@@ -65,6 +65,22 @@ Theorem C12_unbond_never_early : forall s ep c n amt unlock, find_z (s_ub s) n =
 Proof. exact unbond_too_early. Qed.
 Print Assumptions C12_unbond_never_early.
 
+(** ... once the unbond period has elapsed the whole outstanding amount CAN be withdrawn (the contract
+    holds it: balance identity; [s_virt <= s_supply]: the proxy-staked part is part of the supply) ... *)
+Theorem C12_unbond_possible_when_elapsed : forall s ep c n amt unlock,
+  StkInv s -> active s = true -> s_virt s <= s_supply s ->
+  find_z (s_ub s) n = Some unlock -> unlock <= ep -> 0 < amt <= aget (s_ubamt s) n ->
+  exists s', sstep s (SUnbond ep c n amt) = Ok (s', [amt]).
+Proof. exact unbond_live. Qed.
+Print Assumptions C12_unbond_possible_when_elapsed.
+
+(** ... and exactly once: after the full amount has been unbonded no further unbond of that token succeeds *)
+Theorem C12_unbond_once : forall s ep c n s' o,
+  sstep s (SUnbond ep c n (aget (s_ubamt s) n)) = Ok (s', o) ->
+  forall ep' c' amt', is_ok (sstep s' (SUnbond ep' c' n amt')) = false.
+Proof. exact unbond_once. Qed.
+Print Assumptions C12_unbond_once.
+
 (** the admin can withdraw only capacity that has not been accrued to stakers (after settling) *)
 Theorem C12_withdraw : forall s blk c w s' o, sstep s (SWithdraw blk c w) = Ok (s', o) -> StkInv s ->
   exists s1, settle s blk = Ok s1 /\ 0 <= w <= s_cap s1 - s_acc s1 /\ s_cap s' = s_cap s1 - w /\
